@@ -306,3 +306,47 @@ Proof.
   - rewrite Qred_correct. unfold w in Hobj. rewrite weights_dot in Hobj.
     destruct minimize; lra.
 Qed.
+
+(* whatever the status (OPTIMAL, UNBOUNDED, MAX_ITER), the point returned from phase 2 is feasible and the reported
+   objective is c.x *)
+Theorem point_feasible_nophase1 minimize fuel c A b r :
+  valid_lp c A b = true -> forallb (Qleb 0) b = true ->
+  solve_lp 0 minimize fuel c A b = r ->
+  feasible A b (r_solution r) /\ r_objective r == dot c (r_solution r).
+Proof.
+  intros Hvalid Hb Hr. rewrite solve_lp_nophase1 in Hr by assumption.
+  set (n := length c) in *. set (m := length b) in *.
+  set (T0 := init_tableau minimize c A b) in *.
+  destruct (phase2 0 fuel 0 T0 (seq n m) []) as [[[[st2 it2] T2] basis2] piv2] eqn:E.
+  subst r. unfold extract in *. simpl.
+  pose proof (T0_inv minimize c A b Hvalid Hb) as Hinv0. fold n m T0 in Hinv0.
+  destruct (phase2_inv (n + m) _ _ _ _ _ _ _ _ _ _ Hinv0 E) as [Hinv2 [Heq _]].
+  set (w := weights minimize c).
+  set (v := bsol (n + m) T2 basis2).
+  set (x := extract_loop n basis2 0 (t_rows T2) (zeros n)).
+  assert (Hx : firstn n v = x).
+  { unfold v, bsol, x. rewrite firstn_extract_loop by lia. rewrite firstn_zeros by lia. reflexivity. }
+  assert (Hv : v = x ++ skipn n v) by (rewrite <- Hx; symmetry; apply firstn_skipn).
+  assert (Lx : length x = n).
+  { rewrite <- Hx. rewrite firstn_length. unfold v. rewrite bsol_length. lia. }
+  set (z := - snd (t_obj T2)).
+  assert (Hsat : tab_sat (x ++ skipn n v) z T0).
+  { rewrite <- Hv. apply Heq. apply bsol_sat. exact Hinv2. }
+  apply (T0_sat minimize c A b Hvalid) in Hsat; [|exact Lx]. destruct Hsat as [Hrows Hobj].
+  fold m in Hrows. fold w in Hobj.
+  assert (Hvn : Forall (fun q => 0 <= q) v) by (apply bsol_nonneg; exact Hinv2).
+  assert (Hxn : Forall (fun q => 0 <= q) x).
+  { unfold x. apply extract_loop_nonneg.
+    - unfold zeros. apply Forall_forall. intros q Hq. apply repeat_spec in Hq. subst. lra.
+    - apply Forall_nth. intros k d Hk. rewrite (nth_indep _ d row0) by exact Hk. apply (inv_rhs _ _ _ Hinv2). exact Hk. }
+  assert (HlenA : length A = m) by (apply (valid_len c A b Hvalid)).
+  assert (Hfeas : feasible A b x).
+  { split; [exact Hxn|]. apply Forall2_mv; [exact HlenA|].
+    intros k Hk. rewrite HlenA in Hk. specialize (Hrows k Hk).
+    assert (0 <= get (skipn n v) k).
+    { rewrite <- (get_app_r x). rewrite <- Hv. apply get_nonneg. exact Hvn. }
+    lra. }
+  split; [exact Hfeas|].
+  rewrite Qred_correct. unfold w in Hobj. rewrite weights_dot in Hobj.
+  destruct minimize; lra.
+Qed.
